@@ -134,9 +134,13 @@ class Sc:
     def git(self, *args, env=None):
         rc, out, err = self.r.git(*args, env=env)
         self.log.append({"op": "git", "args": list(args), "rc": rc})
+        if args[0] == "branch" and rc == 0 and len(args) == 2:
+            self.mrec("mkbranch", name=args[1])
         if args[0] == "switch" and rc == 0:
             if "-c" in args:
                 self.mrec("branch", name=args[-1])
+            elif getattr(self, "carry", False):
+                self.mrec("switchCarry", name=args[-1])      # uncommitted work goes along
             else:
                 self.mrec("switch", name=args[-1])
         return rc
@@ -436,18 +440,23 @@ class Sc:
         return f"stash:{upstream}"
 
     def t_switch_carry(self, how):
-        self.model_ok = False          # carrying uncommitted work across a switch: not in the model
         self.base()
         self.git("branch", "other")
         self.git("switch", "-q", "other"); self.edit("human", "other.txt", where="bottom"); self.commit("other work")
         self.git("switch", "-q", "main")
         self.edit("s1", self.files[0], where="middle"); self.edit("human", self.files[0], where="bottom")
+        self.carry = True
         if how == "switch":
             rc = self.git("switch", "-q", "other")
         elif how == "checkout-m":
             rc = self.git("checkout", "-q", "-m", "other")
+            if rc == 0:
+                self.mrec("switchMerge", name="other", ys=self.tree_ids())
         else:
             rc = self.git("switch", "-q", "-c", "fresh")
+        self.carry = False
+        if rc != 0:
+            self.model_ok = False
         self.commit("carried")
         self.check_tip(f"after {how} + commit")
         return f"switch-carry:{how}"
@@ -555,7 +564,7 @@ def model_script(mops, path):
         elif k in ("rebase", "cherryPick"):
             n = len(next(iter(o["news"].values()), []))
             out.append({**o, "news": o["news"].get(path, [[] for _ in range(n)])})
-        elif k in ("squash", "stashPop"):
+        elif k in ("squash", "stashPop", "switchMerge"):
             out.append({**o, "ys": o["ys"].get(path, [])})
         else:
             out.append(o)
@@ -638,8 +647,7 @@ def run(tier, seed):
                 "cherry-pick single|range|-n, amend, merge --squash, reset --soft|--mixed + recommit, stash/pop with upstream "
                 "changes, switch/checkout -m carrying work, failing and dry-run operations) with randomised edits, sessions and "
                 "upstream change positions (other file, above, below, both); non-trivial = more than 4 executed steps")
-    res.rule += ("; correspondence: for every template the model has (all but conflict resolution inside a stopped rebase, cherry-pick -n "
-                 "and carrying work across a switch) the Lean model Model/Rewrite.lean is fed the runner's steps and the file contents "
+    res.rule += ("; correspondence: for every template the model has (all but conflict resolution inside a stopped rebase and cherry-pick -n) the Lean model Model/Rewrite.lean is fed the runner's steps and the file contents "
                  "git produced for rewritten commits, and its predicted blame is compared with the binary's at every observation point")
     res.trusted = ["Lean 4.33 kernel", "vlib/props/c02.py text-identity ghost tracking and model-script recording", "real git 2.39 (its rebase / "
                    "cherry-pick / merge / stash results are inputs of the model)"]
